@@ -556,10 +556,7 @@ func TestVerifReplay(t *testing.T) {
 	}
 	repl := map[string]string{}
 	for virt, rp := range real {
-		d := filepath.Dir(virt)
-		if strings.HasSuffix(d, "zzverif/symapi") || d == filepath.Join(repoDir, hc.Pkg) || containsDir(cfg.Packages, repoDir, d) {
-			repl[virt] = rp
-		}
+		repl[virt] = rp
 	}
 	repl[filepath.Join(repoDir, hc.Pkg, "zz_verif_replay_test.go")] = filepath.Join(dir, "zz_verif_replay_test.go")
 	ob, _ := json.MarshalIndent(map[string]interface{}{"Replace": repl}, "", " ")
@@ -571,7 +568,7 @@ func TestVerifReplay(t *testing.T) {
 	return dir
 }
 
-func containsDir(pkgs []string, repoDir, d string) bool {
+func unusedContainsDir(pkgs []string, repoDir, d string) bool {
 	for _, p := range pkgs {
 		if filepath.Join(repoDir, p) == d {
 			return true
